@@ -20,7 +20,7 @@ def tomlInvalid : Content := .ltoml (.doc none (some ⟨none, some 2⟩))
 
 def L (rest : List String) : Path := "layers" :: rest
 def file (p : Path) (s : String) : Path × Obj := (p, .file (.raw s))
-def dir (p : Path) : Path × Obj := (p, .dir)
+def dir (p : Path) : Path × Obj := (p, .dir modeNew)
 
 def oldContent : String := "OLD-CONTENT\n"
 
